@@ -70,19 +70,47 @@ def check_interp_boundary(repo: Repo, run: Any, rule: str, only_exc: Optional[Se
     ev = repo.mod("evaluation")
     n = 0
     escaped = {(t, e): w for t, e, w in info["escapes"]}
+    # a handler may sit in a helper method: it converts for the grammar-rule methods that (transitively) call the helper
+    from .model import class_methods
+
+    meths = class_methods(ev.cls("Evaluator"), raw=True)
+    calls: Dict[str, Set[str]] = {}
+    for mname, mnode in meths.items():
+        calls[mname] = {c.func.attr for c in ast.walk(mnode) if isinstance(c, ast.Call) and isinstance(c.func, ast.Attribute)
+                        and isinstance(c.func.value, ast.Name) and c.func.value.id in ("self", "cls") and c.func.attr in meths}
+
+    def rule_callers(helper: str) -> Set[str]:
+        out: Set[str] = set()
+        for mname in meths:
+            if mname not in eng.g.rules and mname != "evaluate":
+                continue
+            seen, todo = set(), [mname]
+            while todo:
+                x = todo.pop()
+                if x in seen:
+                    continue
+                seen.add(x)
+                todo.extend(calls.get(x, ()))
+            if helper in seen:
+                out.add(mname)
+        return out
+
+    done: Set[Tuple[str, str]] = set()
     for (fn, exc) in sorted(eng.caught):
         if not fn.startswith("evaluation.Evaluator."):
             continue
-        tag = fn.split(".", 1)[1]
-        tag = ".".join(tag.split(".")[:2])
-        if only_exc is not None and exc not in only_exc:
-            continue
-        if only_tags is not None and tag not in only_tags:
-            continue
-        if (tag, exc) in escaped or exc in ALLOWED or exc in ASSERTION_CLASSES:
-            continue
-        n += 1
-        run.ob(rule, f"{tag}|{exc}", True, f"{exc} arising in {tag} is converted by a handler there", str(ev.path))
+        meth = fn.split(".")[2]
+        tags = [f"Evaluator.{meth}"] if (meth in eng.g.rules or meth == "evaluate") else sorted(f"Evaluator.{m}" for m in rule_callers(meth))
+        for tag in tags:
+            if only_exc is not None and exc not in only_exc:
+                continue
+            if only_tags is not None and tag not in only_tags:
+                continue
+            if (tag, exc) in escaped or exc in ALLOWED or exc in ASSERTION_CLASSES or (tag, exc) in done:
+                continue
+            done.add((tag, exc))
+            n += 1
+            run.ob(rule, f"{tag}|{exc}", True, f"{exc} arising in {tag} is converted by a handler" + ("" if tag.endswith("." + meth) else f" (in {meth})"), str(ev.path))
     for (tag, exc), why in sorted(escaped.items()):
         if only_exc is not None and exc not in only_exc:
             continue
@@ -205,6 +233,33 @@ def local_effects(repo: Repo, cls: str, method: str):
     res = eng.fix(lambda: eng.analyze(mcv, args))
     key = (mcv.key(), tuple(a.key() for a in args))
     return {(e, t): short_why(eng.explain(key, (e, t))) for e, t in res[0]}
+
+
+def closed_callable_effects(repo: Repo, module: str, expr: ast.expr, nargs: int = 2) -> Optional[Dict[str, str]]:
+    """Effects of calling the callable denoted by a *closed* expression (module-level names only), e.g.
+    ``eval_error("no such overload", TypeError)(celpy.celtypes.logical_and)``, with dynamic arguments.
+    None if the expression does not denote a callable the engine can resolve."""
+    from .effwalk import Walker
+    from .effvals import CV
+
+    eng = engine(repo)
+    probe = ast.parse("def __probe__():\n    pass\n").body[0]
+    cv = CV("fn", module, "__probe__", probe)
+    key = ("closed-probe", module, ast.unparse(expr))
+
+    def thunk():
+        w = Walker(eng, cv, [], {}, key)
+        w.effs = set()
+        w.tries = []
+        v = w.ev(expr)
+        if not v.calls:
+            return None, v
+        w.effs = set()
+        w.call_val(v, [DYN] * nargs, {}, expr)
+        return {e: short_why(eng.why.get((key, (e, t)), "")) for e, t in w.effs}, v
+
+    out, _v = eng.fix(thunk)
+    return out
 
 
 def callable_effects(repo: Repo, module: str, qualname: str, expr: ast.expr, nargs: int = 2) -> Dict[str, str]:
